@@ -2,6 +2,8 @@ package main
 
 import (
 	"context"
+	"regexp"
+	"strconv"
 	"encoding/json"
 	"fmt"
 	"os"
@@ -23,15 +25,38 @@ type replayEntry struct {
 	Run  string `json:"run"`  // test name
 }
 
-func loadReplayRegistry(verif string) map[string]replayEntry {
-	out := map[string]replayEntry{}
-	data, err := os.ReadFile(filepath.Join(verif, "replay", "registry.json"))
-	if err != nil {
-		return out
-	}
-	json.Unmarshal(data, &out)
-	return out
+type standinEntry struct {
+	replayEntry
+	For string `json:"for"`
 }
+
+type replayRegistry struct {
+	Oracles  map[string]replayEntry    `json:"oracles"`
+	Standins map[string][]standinEntry `json:"standins"`
+}
+
+func loadRegistry(verif string) replayRegistry {
+	var reg replayRegistry
+	data, err := os.ReadFile(filepath.Join(verif, "replay", "registry.json"))
+	if err == nil {
+		json.Unmarshal(data, &reg)
+	}
+	if reg.Oracles == nil {
+		reg.Oracles = map[string]replayEntry{}
+	}
+	return reg
+}
+
+func loadReplayRegistry(verif string) map[string]replayEntry {
+	return loadRegistry(verif).Oracles
+}
+
+type replayOutcome struct {
+	out      string
+	ok, ran  bool
+}
+
+var replayCache = map[string]replayOutcome{}
 
 func runDynamicReplay(eng *Engine, verif string, v OblResult, seed int) (string, bool, bool) {
 	reg := loadReplayRegistry(verif)
@@ -39,7 +64,37 @@ func runDynamicReplay(eng *Engine, verif string, v OblResult, seed int) (string,
 	if !ok {
 		return "", false, false
 	}
-	return runReplayTest(eng.repoDir, verif, e, seed, v.O.Name)
+	if c, ok := replayCache[e.Run]; ok {
+		return c.out, c.ok, c.ran
+	}
+	out, rep, ran := runReplayTest(eng.repoDir, verif, e, seed, v.O.Name)
+	replayCache[e.Run] = replayOutcome{out, rep, ran}
+	return out, rep, ran
+}
+
+var standinRe = regexp.MustCompile(`STANDIN inputs=(\d+) bound="([^"]*)"`)
+
+// runStandins executes the bounded stand-ins registered for a property. They
+// are labelled bounded in the evidence and never counted as proved.
+func runStandins(repoDir, verif, prop, tier string, seed int) (records []map[string]interface{}, failures []string) {
+	for _, s := range loadRegistry(verif).Standins[prop] {
+		os.Setenv("VERIF_TIER", tier)
+		t0 := time.Now()
+		out, failed, ran := runReplayTest(repoDir, verif, s.replayEntry, seed, "")
+		rec := map[string]interface{}{"function": s.For, "test": s.Run, "label": "bounded", "seconds": round2(time.Since(t0).Seconds())}
+		if m := standinRe.FindStringSubmatch(out); m != nil {
+			n, _ := strconv.Atoi(m[1])
+			rec["inputs"] = n
+			rec["bound"] = m[2]
+		}
+		ok := ran && !failed && strings.Contains(out, "ok  ")
+		rec["passed"] = ok
+		records = append(records, rec)
+		if !ok {
+			failures = append(failures, s.Run+": "+out)
+		}
+	}
+	return
 }
 
 func runReplayTest(repoDir, verif string, e replayEntry, seed int, obligation string) (string, bool, bool) {
@@ -53,9 +108,9 @@ func runReplayTest(repoDir, verif string, e replayEntry, seed int, obligation st
 	ovFile := scratchFile(".overlay.json")
 	os.WriteFile(ovFile, ovData, 0o644)
 	defer os.Remove(ovFile)
-	ctx, cancel := context.WithTimeout(context.Background(), 150*time.Second)
+	ctx, cancel := context.WithTimeout(context.Background(), 330*time.Second)
 	defer cancel()
-	cmd := exec.CommandContext(ctx, "go", "test", "-overlay", ovFile, "-vet=off", "-count=1", "-timeout", "120s", "-run", "^"+e.Run+"$", "./"+e.Pkg)
+	cmd := exec.CommandContext(ctx, "go", "test", "-overlay", ovFile, "-vet=off", "-count=1", "-v", "-timeout", "300s", "-run", "^"+e.Run+"$", "./"+e.Pkg)
 	cmd.Dir = repoDir
 	cmd.Env = append(os.Environ(), "GOFLAGS=-mod=mod", "GOPROXY=off", fmt.Sprintf("VERIF_SEED=%d", seed), "VERIF_OBLIGATION="+obligation)
 	out, err := cmd.CombinedOutput()
